@@ -47,8 +47,7 @@ MASSES = {"CA": 12.0, "CB": 15.0, "CC": 36.5, "VS": 0.0, "VM": 72.0}
 VIRTUAL = ("VS", "VM")
 
 
-class Timeout(Exception):
-    pass
+Timeout = common.CaseTimeout
 
 
 def _alarm(*_args):
@@ -394,7 +393,7 @@ def real_run(case, timeout):
     np.random.seed(case["seed"])
     random.seed(case["seed"])
     old = signal.signal(signal.SIGALRM, _alarm)
-    signal.setitimer(signal.ITIMER_REAL, timeout)
+    signal.setitimer(signal.ITIMER_REAL, timeout, 1.0)
     res = dict()
     try:
         gc.gen_coords(**kwargs)
